@@ -95,8 +95,10 @@ Record member := MkMem {
   m_right : fcols;
   m_left : option (nat * fmat);
   m_out : fcols;                      (* observed result columns of this member *)
-  m_spec : option (opd float)         (* cells of a known finding: the operator as SPECIFIED (the transcribed one is m_op);
+  m_spec : option (opd float);        (* cells of a known finding: the operator as SPECIFIED (the transcribed one is m_op);
                                          the case is accepted when either agrees, so a repair never raises an alarm *)
+  m_tol : option float                (* value tolerance of THIS member (members of one batch that differ in conditioning);
+                                         None: the tolerance of the case *)
 }.
 
 Record case := MkCase {
@@ -132,7 +134,7 @@ Definition path_ok (c : case) : bool :=
 Definition member_code (c : case) (m : member) : nat :=
   if ~~ oracle_ok 0x1.ad7f29abcaf48p-24 (* 1e-7 *) (m_op m) then 5%N else
   match alg_solve ArFloat (c_set c) (m_op m) (m_right m) (m_left m) with
-  | Some X => if cols_close (c_tol c) X (m_out m) then 0%N else 2%N
+  | Some X => if cols_close (if m_tol m is Some t then t else c_tol c) X (m_out m) then 0%N else 2%N
   | None =>
       if direct (case_method c) then 3%N else 0%N      (* residual: judged over the whole call, see resid_call_ok *)
   end.
@@ -169,7 +171,7 @@ Definition fold_ok (c : case) : bool :=
 Definition with_spec (c : case) : option case :=
   if all (fun m => isSome (m_spec m)) (c_members c) && (0 < size (c_members c))%N then
     Some (MkCase (c_set c) (c_obs c) (c_rbs c) (c_bb c) (c_cols c)
-                 (map (fun m => MkMem (if m_spec m is Some o then o else m_op m) (m_right m) (m_left m) (m_out m) None) (c_members c))
+                 (map (fun m => MkMem (if m_spec m is Some o then o else m_op m) (m_right m) (m_left m) (m_out m) None (m_tol m)) (c_members c))
                  (c_tol c) (c_cgtol c) (c_fold c) (o_events c) (o_cgtols c) (o_events2 c) (o_warn c))
   else None.
 
